@@ -91,21 +91,36 @@ def campaign(ctx, target, corpus_dirs, seconds, scratch, dict_words=None, seed=1
 def triage(ctx, exe, arts, scratch, plain_check=None):
     """Bucket crash artefacts by signature; timeouts are re-run alone (60 s x3); returns {signature: (smallest input bytes, report)}."""
     buckets = {}
+    # a tree with a shallow defect produces hundreds of artefacts: triage the smallest few of each kind
+    by_kind = {}
+    for a in sorted(arts, key=lambda a: os.path.getsize(a[0])):
+        by_kind.setdefault(a[1], []).append(a)
+    limited = []
+    for kind, lst in by_kind.items():
+        cap = 4 if kind == 'timeout' else 40
+        limited += lst[:cap]
+        if len(lst) > cap:
+            ctx.notes['artefacts_not_triaged_' + kind] = len(lst) - cap
+    arts = limited
     for path, kind, work in arts:
         if kind in ('oom', 'slow'):
             ctx.notes['load_artefacts_ignored'] = ctx.notes.get('load_artefacts_ignored', 0) + 1
             continue
         data = open(path, 'rb').read()
         if kind == 'timeout':
+            if 'hang' in buckets:
+                continue            # one confirmed non-terminating input is enough; the others are most likely the same loop
             hangs = 0
             for _ in range(3):
-                c, sig, rep = run_one(exe, path, work, timeout=60)
+                c, sig, rep = run_one(exe, path, work, timeout=30)
                 if c and sig == 'hang':
                     hangs += 1
+                else:
+                    break
             if hangs < 3:
                 ctx.notes['timeouts_not_reproduced'] = ctx.notes.get('timeouts_not_reproduced', 0) + 1
                 continue
-            sig, rep = 'hang', 'the input never finished within 60 s, three times in a row'
+            sig, rep = 'hang', 'the input never finished within 30 s, three times in a row'
         else:
             c, sig, rep = run_one(exe, path, work)
             if not c:
